@@ -224,10 +224,22 @@ func oneCase(c *lib.Ctx, rng *lib.RNG, sc *lib.Script, fails *[]lib.OracleFail) 
 	}
 	polls := 0
 	kinds := map[string]bool{}
-	for i := 0; i < nops; i++ {
-		switch rng.Weighted([]int{3, 6, 2, 4, 3, 5, 2, 1}) {
+	// one case in eight is CROWDED: 33–40 watchers are opened on the store before anything else happens (one runtime
+	// per namespace on a shared store gets there), every other case has at most four. (Seeded change c13k: the
+	// watchers that match a mutation were collected in a uint32 bit set – the 33rd registered watcher heard nothing.)
+	maxW, pre := 4, 0
+	if rng.Chance(1, 8) {
+		maxW, pre = 42, rng.Range(33, 40)
+		c.Hit("case-crowded-watchers")
+	}
+	for i := 0; i < nops+pre; i++ {
+		choice := rng.Weighted([]int{3, 6, 2, 4, 3, 5, 2, 1})
+		if i < pre {
+			choice = 0
+		}
+		switch choice {
 		case 0: // watch
-			if len(r.ws) >= 4 {
+			if len(r.ws) >= maxW {
 				continue
 			}
 			if rng.Chance(1, 8) {
@@ -527,13 +539,19 @@ func oneCase(c *lib.Ctx, rng *lib.RNG, sc *lib.Script, fails *[]lib.OracleFail) 
 		}
 	}
 	// final drain of the open watchers: everything owed must arrive
+	lost := 0
 	for _, w := range r.ws {
 		if w.closed {
 			continue
 		}
 		for len(w.owed) > 0 {
-			e, ok, err := next(w.strm, 10*time.Second)
+			patience := 10 * time.Second
+			if lost > 0 {
+				patience = 200 * time.Millisecond // the case has failed already: do not wait long for every further watcher
+			}
+			e, ok, err := next(w.strm, patience)
 			if err != nil || !ok {
+				lost++
 				r.fail("event-lost", fmt.Sprintf("watcher %d (%s): %d owed events never arrived (first %v)", w.id, w.f, len(w.owed), w.owed[0]))
 				break
 			}
@@ -607,7 +625,7 @@ func stalled(c *lib.Ctx, rng *lib.RNG, fails *[]lib.OracleFail) {
 }
 
 func Run(c *lib.Ctx) {
-	c.Rule = "random histories (≤26 ops quick / ≤60 thorough) of watch (filters all | k==v | n>x | o exists | o does not exist, documents with \"o\" absent / null / set and \"n\" an int / a string / absent) / insert / batch insert with duplicates / update / upsert / delete / consumer read / close / cancel on a real store with ≤4 watchers, compared line by line with Uniflow.Stream.step and with the harness's own owed-event FIFOs; non-trivial = at least one watcher and ≥3 different operation kinds took effect, distinct by full trace"
+	c.Rule = "random histories (≤26 ops quick / ≤60 thorough) of watch (filters all | k==v | n>x | o exists | o does not exist, documents with \"o\" absent / null / set and \"n\" an int / a string / absent) / insert / batch insert with duplicates / update / upsert / delete / consumer read / close / cancel on a real store with ≤4 watchers (33–42 in one case in eight), compared line by line with Uniflow.Stream.step and with the harness's own owed-event FIFOs; non-trivial = at least one watcher and ≥3 different operation kinds took effect, distinct by full trace"
 	c.Assumptions = []string{
 		"filter matching and acceptance of a document by the segment are inputs of the model (they are C10/C12's subject); the harness evaluates the five watcher filter shapes itself",
 		"after Close the Go pump may deliver or discard buffered events (select is random): the harness feeds the model exactly the events that were still delivered, the model checks they are the oldest queued ones in order",
